@@ -20,10 +20,13 @@ pub fn vstr_to_string(s: &str) -> (r: String)
     ensures r@ == s@,
 { s.to_string() }
 
+/// the byte string is well-formed UTF-8
+pub uninterp spec fn is_utf8(b: Seq<u8>) -> bool;
 /// String::from_utf8
 #[verifier::external_body]
 pub fn vstring_from_utf8(v: Vec<u8>) -> (r: Result<String, std::string::FromUtf8Error>)
     ensures r is Ok ==> str_bytes(r->Ok_0@) == v@,
+        r is Ok <==> is_utf8(v@),
 { String::from_utf8(v) }
 
 /// std::io::Empty (a reader that is always at end of stream), used as a placeholder type parameter
